@@ -1,223 +1,18 @@
 // Package model: the abstract API document model, its directive-tree form and the JDoc JSON it must produce.
 package model
 
-import (
-	"bytes"
-	"encoding/json"
-	"fmt"
-	"sort"
-	"strings"
+import "verif/internal/oj"
+
+type (
+	O         = oj.O
+	AnyValue  = oj.AnyValue
+	StrSet    = oj.StrSet
+	OptStrSet = oj.OptStrSet
 )
 
-// O is a JSON object with key order. Ordered says whether key order is significant when comparing.
-type O struct {
-	Keys    []string
-	Vals    map[string]any
-	Ordered bool
-}
-
-func NewO(ordered bool) *O { return &O{Vals: map[string]any{}, Ordered: ordered} }
-
-func (o *O) Set(k string, v any) *O {
-	if _, ok := o.Vals[k]; !ok {
-		o.Keys = append(o.Keys, k)
-	}
-	o.Vals[k] = v
-	return o
-}
-
-// AnyValue matches any JSON value; Optional: the key may also be absent.
-type AnyValue struct{ Optional bool }
-
-// StrSet matches an array of strings as a set.
-type StrSet []string
-
-// OptStrSet: like StrSet, but the key may be absent altogether.
-type OptStrSet []string
-
-// ParseOrdered parses JSON keeping object key order.
-func ParseOrdered(b []byte) (any, error) {
-	dec := json.NewDecoder(bytes.NewReader(b))
-	dec.UseNumber()
-	v, err := parseValue(dec)
-	if err != nil {
-		return nil, err
-	}
-	if _, err := dec.Token(); err == nil {
-		return nil, fmt.Errorf("trailing data after JSON value")
-	}
-	return v, nil
-}
-
-func parseValue(dec *json.Decoder) (any, error) {
-	t, err := dec.Token()
-	if err != nil {
-		return nil, err
-	}
-	switch d := t.(type) {
-	case json.Delim:
-		switch d {
-		case '{':
-			o := NewO(true)
-			for dec.More() {
-				kt, err := dec.Token()
-				if err != nil {
-					return nil, err
-				}
-				k := kt.(string)
-				v, err := parseValue(dec)
-				if err != nil {
-					return nil, err
-				}
-				if _, dup := o.Vals[k]; dup {
-					return nil, fmt.Errorf("duplicate key %q", k)
-				}
-				o.Set(k, v)
-			}
-			if _, err := dec.Token(); err != nil {
-				return nil, err
-			}
-			return o, nil
-		case '[':
-			arr := []any{}
-			for dec.More() {
-				v, err := parseValue(dec)
-				if err != nil {
-					return nil, err
-				}
-				arr = append(arr, v)
-			}
-			if _, err := dec.Token(); err != nil {
-				return nil, err
-			}
-			return arr, nil
-		}
-		return nil, fmt.Errorf("unexpected delimiter %v", d)
-	case json.Number:
-		return string(d), nil
-	default:
-		return t, nil
-	}
-}
-
-// Diff returns "" when act matches exp, else the JSON pointer and description of the first difference.
-func Diff(exp, act any, path string) string {
-	switch e := exp.(type) {
-	case AnyValue:
-		return ""
-	case OptStrSet:
-		return Diff(StrSet(e), act, path)
-	case StrSet:
-		a, ok := act.([]any)
-		if !ok {
-			return fmt.Sprintf("%s: expected array (set) %v, got %s", path, []string(e), show(act))
-		}
-		var as []string
-		for _, x := range a {
-			s, ok := x.(string)
-			if !ok {
-				return fmt.Sprintf("%s: non-string in set", path)
-			}
-			as = append(as, s)
-		}
-		es := append([]string{}, e...)
-		sort.Strings(as)
-		sort.Strings(es)
-		if strings.Join(as, "\x00") != strings.Join(es, "\x00") {
-			return fmt.Sprintf("%s: expected set %v, got %v", path, es, as)
-		}
-		return ""
-	case *O:
-		a, ok := act.(*O)
-		if !ok {
-			return fmt.Sprintf("%s: expected object, got %s", path, show(act))
-		}
-		// keys
-		var ekeys []string
-		for _, k := range e.Keys {
-			if av, isAny := e.Vals[k].(AnyValue); isAny && av.Optional {
-				if _, present := a.Vals[k]; !present {
-					continue
-				}
-			}
-			if _, isOpt := e.Vals[k].(OptStrSet); isOpt {
-				if _, present := a.Vals[k]; !present {
-					continue
-				}
-			}
-			ekeys = append(ekeys, k)
-		}
-		for _, k := range ekeys {
-			if _, ok := a.Vals[k]; !ok {
-				return fmt.Sprintf("%s: missing key %q (has %v)", path, k, a.Keys)
-			}
-		}
-		for _, k := range a.Keys {
-			if _, ok := e.Vals[k]; !ok {
-				return fmt.Sprintf("%s: unexpected key %q", path, k)
-			}
-		}
-		if e.Ordered {
-			if strings.Join(ekeys, "\x00") != strings.Join(a.Keys, "\x00") {
-				return fmt.Sprintf("%s: key order differs: expected %v, got %v", path, ekeys, a.Keys)
-			}
-		}
-		for _, k := range ekeys {
-			if d := Diff(e.Vals[k], a.Vals[k], path+"/"+k); d != "" {
-				return d
-			}
-		}
-		return ""
-	case []any:
-		a, ok := act.([]any)
-		if !ok {
-			return fmt.Sprintf("%s: expected array, got %s", path, show(act))
-		}
-		if len(a) != len(e) {
-			return fmt.Sprintf("%s: expected %d elements, got %d", path, len(e), len(a))
-		}
-		for i := range e {
-			if d := Diff(e[i], a[i], fmt.Sprintf("%s/%d", path, i)); d != "" {
-				return d
-			}
-		}
-		return ""
-	default:
-		if fmt.Sprint(exp) != fmt.Sprint(act) || (exp == nil) != (act == nil) {
-			return fmt.Sprintf("%s: expected %s, got %s", path, show(exp), show(act))
-		}
-		if _, isO := act.(*O); isO {
-			return fmt.Sprintf("%s: expected scalar %s, got object", path, show(exp))
-		}
-		if _, isA := act.([]any); isA {
-			return fmt.Sprintf("%s: expected scalar %s, got array", path, show(exp))
-		}
-		return ""
-	}
-}
-
-func show(v any) string {
-	switch x := v.(type) {
-	case *O:
-		return fmt.Sprintf("object%v", x.Keys)
-	case []any:
-		return fmt.Sprintf("array[%d]", len(x))
-	case string:
-		return fmt.Sprintf("%q", x)
-	case nil:
-		return "null"
-	}
-	return fmt.Sprint(v)
-}
-
-// Get walks keys.
-func Get(v any, keys ...string) any {
-	for _, k := range keys {
-		o, ok := v.(*O)
-		if !ok {
-			return nil
-		}
-		v = o.Vals[k]
-	}
-	return v
-}
+var (
+	NewO         = oj.NewO
+	ParseOrdered = oj.ParseOrdered
+	Diff         = oj.Diff
+	Get          = oj.Get
+)
